@@ -26,7 +26,7 @@ RULE = ('cases are (middleware stack, request): each built-in middleware alone (
 ASSUMPTIONS = ['no conditional request headers are sent (answering them is the purpose of the cache middleware)',
                'bodies of 500 responses are compared after removing the traceback frame count, which depends on stack depth',
                'middlewares run in their default configuration']
-REQUIRED_REACH = ['mw:gzip', 'mw:cache', 'mw:stats', 'mw:profile', 'mw:cookie', 'mw:cookie-expiry', 'mw:ctx', 'mw:simplectx',
+REQUIRED_REACH = ['gzip:vary-on-uncompressed', 'mw:gzip', 'mw:cache', 'mw:stats', 'mw:profile', 'mw:cookie', 'mw:cookie-expiry', 'mw:ctx', 'mw:simplectx',
                   'mw:getparam', 'mw:postdata', 'mw:scriptroot', 'kind:404', 'kind:405', 'kind:500', 'kind:redirect',
                   'kind:http-raised', 'kind:http-returned', 'kind:rendered', 'kind:nonbreaking', 'gzip:compressed',
                   'gzip:not-compressed-by-choice', 'gzip:client-does-not-accept', 'pairs-compared', 'head-compared']
@@ -202,6 +202,17 @@ def judge_stack(sh, rng, stack, blob, requests, record=True):
                             sh.violation('C15/gzip-vary', '%s: compressed response without Vary: Accept-Encoding (%r)' % (brief, vary), case)
                     else:
                         sh.hit('gzip:not-compressed-by-choice')
+                        # the answer to this URL depends on Accept-Encoding whether or not this particular body was worth
+                        # compressing: caches must be told (error responses are HTTPExceptions, which the middleware
+                        # passes through untouched, as are the slash redirects the dispatcher issues before any middleware
+                        # runs - both left open)
+                        if b.status < 300:
+                            vary = ','.join(b.header_all('Vary')).lower()
+                            if 'accept-encoding' not in vary:
+                                sh.violation('C15/gzip-vary', '%s: gzip-accepting client, body left uncompressed, no Vary: Accept-Encoding (%r)'
+                                             % (brief, vary), case)
+                            else:
+                                sh.hit('gzip:vary-on-uncompressed')
                 else:
                     sh.hit('gzip:client-does-not-accept')
                     if enc == 'gzip' or (m != 'HEAD' and b.body != a.body and a.status != 500):
